@@ -10,6 +10,7 @@
 import MocVerif.Lemmas.Cells
 import MocVerif.Lemmas.CellView
 import MocVerif.Model.Params
+import MocVerif.Lemmas.CellRanges
 
 namespace Moc.C05
 
@@ -95,6 +96,65 @@ theorem cells_injective (q : Qty) (hq : q.dim = 1 ∨ q.dim = 2) (w d : Nat) (hd
     (l1 l2 : List Rng) (h1 : Valid q w d l1) (h2 : Valid q w d l2)
     (hc : cellsOf q w d l1 = cellsOf q w d l2) : l1 = l2 := by
   rw [← cells_roundtrip q hq w d hd l1 h1, ← cells_roundtrip q hq w d hd l2 h2, hc]
+
+/-- **Cell-range view is lossless too**: ranges → cells → cell ranges (consecutive cells of one depth grouped)
+    → ranges (touching cell ranges fused) returns exactly the original ranges, for every valid MOC. -/
+theorem cellranges_roundtrip (q : Qty) (hq : q.dim = 1 ∨ q.dim = 2) (w d : Nat) (hd : d ≤ q.maxDepth w)
+    (l : List Rng) (h : Valid q w d l) :
+    rangesOfCellRanges q w (cellRangesOf (cellsOf q w d l)) = l := by
+  have ha := aligned_of_valid q w d l h
+  have hoc := Codec.ordCells_cellsOf q hq w d hd (q.nCellsMax w) l 0 h.1 ha h.2.1 (Nat.zero_le _)
+  have hcr := Codec.ordCR_cellRangesOf q w d _ 0 (q.nCellsMax w) hoc
+  have sp := rangesOfCellRanges_spec q w d _ 0 (q.nCellsMax w) hcr
+  refine Canon.ext sp.1 h.1 (fun x => ?_)
+  rw [sp.2, mem_cellRangesOf, cells_cover q hq w d hd l h]
+
+/-- The cell ranges cover exactly the MOC. -/
+theorem cellranges_cover (q : Qty) (hq : q.dim = 1 ∨ q.dim = 2) (w d : Nat) (hd : d ≤ q.maxDepth w)
+    (l : List Rng) (h : Valid q w d l) (x : Nat) :
+    mem x ((cellRangesOf (cellsOf q w d l)).map (rangeOfCellRange q w)) ↔ mem x l := by
+  rw [mem_cellRangesOf, cells_cover q hq w d hd l h]
+
+/-- **Flat cells** (`flatten_to_fixed_depth_cells`): exactly the depth-`d` cells inside the MOC. -/
+theorem flat_cells_sem (sh : Nat) (l : List Rng) (ha : Aligned (2 ^ sh) l) (c : Nat) :
+    c ∈ flatCellsOf sh l ↔ mem (c <<< sh) l := by
+  unfold flatCellsOf
+  rw [mem_iff_exists]
+  simp only [List.mem_flatMap, List.mem_map, List.mem_range]
+  have hc : 0 < 2 ^ sh := Nat.pos_of_ne_zero (by simp)
+  constructor
+  · rintro ⟨r, hr, k, hk, rfl⟩
+    refine ⟨r, hr, ?_⟩
+    obtain ⟨a, ha1⟩ := (ha r hr).1
+    obtain ⟨b, hb1⟩ := (ha r hr).2
+    simp only [Nat.shiftRight_eq_div_pow, Nat.shiftLeft_eq] at hk ⊢
+    rw [ha1, hb1, ← Nat.mul_sub, Nat.mul_div_cancel_left _ hc] at hk
+    rw [ha1, hb1, Nat.mul_div_cancel_left _ hc, Nat.mul_comm (a + k)]
+    constructor
+    · exact Nat.mul_le_mul_left _ (Nat.le_add_right a k)
+    · exact Nat.mul_lt_mul_of_pos_left (show a + k < b by omega) hc
+  · rintro ⟨r, hr, h1, h2⟩
+    obtain ⟨a, ha1⟩ := (ha r hr).1
+    obtain ⟨b, hb1⟩ := (ha r hr).2
+    simp only [Nat.shiftLeft_eq] at h1 h2
+    rw [ha1, Nat.mul_comm c] at h1
+    rw [hb1, Nat.mul_comm c] at h2
+    have k1 : a ≤ c := Nat.le_of_mul_le_mul_left h1 hc
+    have k2 : c < b := Nat.lt_of_mul_lt_mul_left h2
+    refine ⟨r, hr, c - a, ?_, ?_⟩
+    · simp only [Nat.shiftRight_eq_div_pow]
+      rw [ha1, hb1, ← Nat.mul_sub, Nat.mul_div_cancel_left _ hc]; omega
+    · simp only [Nat.shiftRight_eq_div_pow]
+      rw [ha1, Nat.mul_div_cancel_left _ hc]; omega
+
+/-- **Generic uniq numbering** (`to_uniq_gen` / `from_uniq_gen`, sentinel bit above the index): decoding
+    inverts encoding for every depth and in-range index, for the three quantities of the library. -/
+theorem uniqGen_decode_encode (q : Qty) (hq : q = Params.hpx ∨ q = Params.time ∨ q = Params.freq) (d i : Nat)
+    (hi : i < q.nCells d) : fromUniqGen q (toUniqGen q d i) = (d, i) := by
+  rcases hq with rfl | rfl | rfl
+  · exact fromUniqGen_toUniqGen _ (by decide) (by decide) d i hi
+  · exact fromUniqGen_toUniqGen _ (by decide) (by decide) d i hi
+  · exact fromUniqGen_toUniqGen _ (by decide) (by decide) d i hi
 
 /-! Non-vacuity -/
 example : (5 : Nat) < 12 * 4 ^ 0 ∧ (4 : Nat) ≤ 17 := by decide
